@@ -13,5 +13,5 @@ if [ "$1" = "baseline-off" ]; then
   exec ./baseline_off.sh
 fi
 mkdir -p bin work evidence replay
-( cd harness && flock ../bin/.lock go build -o ../bin/gtverif ./cmd/gtverif ) || { echo "ERROR build driver"; exit 2; }
+( cd harness && flock ../bin/.lock go build -tags verif -o ../bin/gtverif ./cmd/gtverif ) || { echo "ERROR build driver"; exit 2; }
 exec ./bin/gtverif "$@"
